@@ -93,24 +93,14 @@ class TLCResult:
         return res
 
 
+_ESC = re.compile(r"\\(.)")
+_ESC_MAP = {"n": "\n", "t": "\t"}
+
+
 def _unescape_tla(s):
-    out = []
-    i = 0
-    while i < len(s):
-        c = s[i]
-        if c == "\\" and i + 1 < len(s):
-            n = s[i + 1]
-            if n == "n":
-                out.append("\n")
-            elif n == "t":
-                out.append("\t")
-            else:
-                out.append(n)
-            i += 2
-        else:
-            out.append(c)
-            i += 1
-    return "".join(out)
+    if "\\" not in s:
+        return s
+    return _ESC.sub(lambda m: _ESC_MAP.get(m.group(1), m.group(1)), s)
 
 
 def _split_tuple(body):
